@@ -1827,8 +1827,10 @@ pub fn scen_keys(ctx: &Ctx) -> i32 {
             gen_compare(&mut d, &mut g, format!("gen cmp u64 {} {}", ha, hb), ord(DbU64::from(a.as_slice()).cmp_u8(&b)).to_string(), 1);
             gen_compare(&mut d, &mut g, format!("gen cmp i64 {} {}", ha, hb), ord(DbI64::from(a.as_slice()).cmp_u8(&b)).to_string(), 1);
             // integer view of keys of any length (shorter than 8: zero extended; longer: the first 8 bytes)
-            gen_compare(&mut d, &mut g, format!("gen u64of {}", hb), u64::from(&DbU64::from(b.as_slice())).to_string(), 1);
-            gen_compare(&mut d, &mut g, format!("gen i64of {}", hb), i64::from(&DbI64::from(b.as_slice())).to_string(), 1);
+            // (a conversion of the crate that panics is an answer like any other: "panic")
+            let guard = |f: &dyn Fn() -> String| std::panic::catch_unwind(std::panic::AssertUnwindSafe(f)).unwrap_or_else(|_| "panic".to_string());
+            gen_compare(&mut d, &mut g, format!("gen u64of {}", hb), guard(&|| u64::from(&DbU64::from(b.as_slice())).to_string()), 1);
+            gen_compare(&mut d, &mut g, format!("gen i64of {}", hb), guard(&|| i64::from(&DbI64::from(b.as_slice())).to_string()), 1);
             // vu64: integers (cmp_u8 decodes; malformed bytes panic, which the model answers with "panic")
             let x = int_boundaries(&mut r);
             let y = match r.below(4) {
